@@ -127,6 +127,7 @@ type vpOpts struct {
 	votes     bool  // symbolic votes map (candidates)
 	plainData bool  // log entries: type fixed to EntryNormal
 	inflPeers int   // number of peers (2, 3) whose in-flight window is non-trivial; 0 = all
+	symPeers  int   // number of peers with fully symbolic Progress; 0 = all. The others are caught-up replicas.
 }
 
 // vpNode is a constructed node plus the facts the harness remembers about it.
@@ -266,6 +267,13 @@ func vpBuildTracker(o vpOpts, sh vpShape, l *raftLog, k *vpConds) tracker.Progre
 				pr.Next = pr.Match + 1
 				pr.RecentActive = true
 				k.add(pr.Match <= last)
+			} else if o.symPeers != 0 && int(id)-1 > o.symPeers {
+				// a caught-up, idle replica
+				pr.State = tracker.StateReplicate
+				pr.Match = last
+				pr.Next = last + 1
+				pr.RecentActive = vpBool()
+				pr.SentCommit(l.committed)
 			} else {
 				pr.Match, pr.Next = vpU64(), vpU64()
 				st := vpU64()
@@ -526,6 +534,8 @@ func vpInvLog(k *vpConds, l *raftLog, term uint64) {
 			k.add(vpImplies(e.GetIndex() < u.offset, e.GetTerm() <= term))
 		}
 		k.add(l.applied+1 >= s+1)
+		// what has been applied has been persisted first (Ready contract)
+		k.add(l.applied < u.offset)
 		// storage contract: snapshots are taken at applied indexes
 		if ms.snapshot != nil {
 			k.add(ms.snapshot.GetMetadata().GetIndex() <= l.applied)
